@@ -563,14 +563,18 @@ class SoupStrainer(ElementFilter):
             return False
 
         this_attr_match = _match_attribute_value_helper(attr_values)
-        if not this_attr_match and len(attr_values) > 1:
+        if not this_attr_match and len(attr_values) != 1:
             # This cast converts Optional[str] to plain str.
             #
             # We know if there's more than one value, there can't be
             # any None in the list, because Beautiful Soup never uses
             # None as a value of a multi-valued attribute, and if None
             # is passed in as attr_value, it's turned into a list with
-            # a single element (thus len(attr_values) > 1 fails).
+            # a single element (thus len(attr_values) != 1 fails).
+            #
+            # A multi-valued attribute with no values at all
+            # (class="") is still present: its value as a single
+            # string is the empty string.
             attr_values = cast(Sequence[str], attr_values)
 
             # Try again but treat the attribute value
